@@ -1138,7 +1138,7 @@ func (m *Machine) makeSlice(elem types.Type, ln, cp *sym.Term) Value {
 	var n int64
 	if cp.IsConst() {
 		n = cp.Int()
-		if n > int64(m.Cfg.AllocLimit)*16 {
+		if n > 1<<22 {
 			m.Stats.OverLimit++
 			m.endPath("allocation over limit")
 		}
